@@ -599,5 +599,9 @@ GRID = {
     "KEEPS_RECEIVER_UNLESS_COMMITTED": (),
     "SKIP_FUNCS": SKIP_FUNCS + ("construct",),
     "IMPLICIT_REQ": {("update_congruences", 0): [("this", "GU", True)],
-                     ("set_zero_dim_univ", 0): [("this", "NE", True)]},
+                     ("set_zero_dim_univ", 0): [("this", "NE", True)],
+                     # withdrawing a description: the other one must be complete, or the value is lost
+                     ("clear_generators_up_to_date", 0): [("this", "CU", True)],
+                     ("clear_congruences_up_to_date", 0): [("this", "GU", True)]},
+    "DISCARDS": ("clear_generators_up_to_date", "clear_congruences_up_to_date"),
 }
